@@ -41,7 +41,11 @@ MARKUP_PIECES = ['`', '``', '*', '**', '_', '|', '{', '}', 'L{', 'C{', '::', '\\
                  '`` .. raw:: html <script>a</script> ``', '``\\ `a`_ ``', '`` **bold** *em* ``', '`_', '`__', '`` <b> ``']
 HTML_ATTACKS = ['<script>alert(1)</script>', '"><img src=x onerror=alert(1)>', "' onmouseover='alert(1)", ']]><x>', '--><x y="z">', '&#60;x&#62;', '<a href="javascript:alert(1)">c</a>',
                 '</code></pre></div><iframe src=//e>', '<!--', '<?php x ?>', '&nbsp;&copy;&zq;', '<![CDATA[x]]>', '\x1b[0m\x01']
-MARKUP_ATTACKS = [p for p in MARKUP_PIECES if len(p) > 6] + ['U{javascript:alert(1)}', 'L{<b>}', 'C{x}E{lb}', ' javascript:alert(1) ', ' http://evil.example/ ', '*em* **st** `ref`_ |s| [1]_',
+# every character str.splitlines() (hence docutils) treats as a line boundary, and directive payloads framed by them
+LINE_BREAKERS = ['\x0b', '\x1c', '\x1d', '\x1e', '\x85', '\u2028', '\u2029']
+MARKUP_PIECES += LINE_BREAKERS
+MARKUP_ATTACKS = [p for p in MARKUP_PIECES if len(p) > 6] + ['old%s%s.. raw:: html%s%s <script>alert(1)</script>%s%snew' % ((b,) * 6) for b in LINE_BREAKERS] + [
+                  'x%s.. image:: javascript:alert(1)%sy' % (b, b) for b in LINE_BREAKERS[:3]] + ['U{javascript:alert(1)}', 'L{<b>}', 'C{x}E{lb}', ' javascript:alert(1) ', ' http://evil.example/ ', '*em* **st** `ref`_ |s| [1]_',
                                                         'x ``y', '`', '\\`` `a <b>`_ ``']
 DOC_SLOTS = ['doc_mod', 'doc_cls', 'doc_meth', 'doc_attr', 'docfield_param', 'docfield_ivar']
 CODE_SLOTS = ['const', 'const_nested', 'default', 'ann_str', 'ann_literal', 'ann_return', 'deco_arg', 'deprecated_repl', 'deprecated_ver', 'base_sub', 'alias', 'typevar']
